@@ -69,7 +69,9 @@ def do_OP_2SWAP(stack: Any) -> None:
 
 
 def do_OP_IFDUP(stack: Any) -> None:
-    if stack[-1]:
+    # in a VM, every encoding of zero (b"\0", b"\x80", ...) is false
+    to_bool = getattr(stack, "bool_from_script_bytes", bool)
+    if to_bool(stack[-1]):
         stack.append(stack[-1])
 
 
